@@ -176,4 +176,105 @@ theorem C07_vec128_whole_buffer (ks : KeySched 64) (input : Bytes) :
   ⟨parallelBatched_eq_ecb _ _ 16 4 (by decide) (by decide) (fun c hc => (vec128_batch_is_ecb ks c hc).1) _ input (by omega),
    parallelBatched_eq_ecb _ _ 16 4 (by decide) (by decide) (fun c hc => (vec128_batch_is_ecb ks c hc).2) _ input (by omega)⟩
 
+/-! ## the same for every vector back end of Skinny: a generic batch lemma and its instances -/
+
+theorem image_block_gen (W bs : Nat) (chunk : Bytes) (j : Nat) (hj : 8 * bs * (j + 1) ≤ W) :
+    image (8 * bs) ((chunk.drop (bs * j)).take bs) = (image W chunk).extractLsb' (8 * bs * j) (8 * bs) := by
+  by_cases hbs : bs = 0
+  · subst hbs; apply BitVec.eq_of_getLsbD_eq; intro i hi; omega
+  apply eq_of_lanes 8 bs (by decide) (Nat.le_refl _)
+  intro i hi
+  have h1 : 8 * (i + 1) ≤ 8 * bs := by omega
+  have hmul : 8 * bs * (j + 1) = 8 * bs * j + 8 * bs := Nat.mul_succ _ _
+  rw [lane8_image (8 * bs) _ i h1, lane_extractLsb' 8 i (8 * bs * j) (8 * bs) _ h1]
+  have e : 8 * bs * j + 8 * i = 8 * (bs * j + i) := by rw [Nat.mul_assoc, Nat.mul_add]
+  have hl := lane8_image W chunk (bs * j + i) (by
+    have : 8 * (bs * j + i + 1) = 8 * bs * j + 8 * (i + 1) := by rw [Nat.mul_assoc]; omega
+    omega)
+  simp only [lane] at hl
+  rw [e, hl]
+  congr 2
+  simp only [List.getD_eq_getElem?_getD, List.getElem?_take, hi, if_true, List.getElem?_drop]
+
+/-- a batch function that writes, at block `j`, the block function of input block `j` is ECB on the batch -/
+theorem batch_is_ecb {w : Nat} (F : Bytes → Bytes) (bs : Nat) (hbs : 0 < bs) (B : Nat) (X : BitVec w) (chunk : Bytes)
+    (hlen : chunk.length = B * bs)
+    (hblk : ∀ j, j < B → bytesOf bs (X.extractLsb' (8 * bs * j) (8 * bs)) = F ((chunk.drop (bs * j)).take bs)) :
+    bytesOf (B * bs) X = ecb F bs chunk := by
+  induction B generalizing w X chunk with
+  | zero =>
+    have : chunk = [] := List.eq_nil_of_length_eq_zero (by simpa using hlen)
+    subst this
+    simp [bytesOf, ecb, chunks]
+  | succ n ih =>
+    have hal : bs ≤ chunk.length := by rw [hlen, Nat.succ_mul]; omega
+    have hdl : (chunk.drop bs).length = n * bs := by rw [List.length_drop, hlen, Nat.succ_mul]; omega
+    rw [show (n + 1) * bs = bs + n * bs by rw [Nat.succ_mul, Nat.add_comm], bytesOf_split X bs (n * bs), ecb_cons F bs hbs chunk hal]
+    have h0 := hblk 0 (by omega)
+    simp only [Nat.mul_zero, List.drop_zero] at h0
+    rw [h0]
+    congr 1
+    apply ih (X.extractLsb' (8 * bs) (8 * (n * bs))) (chunk.drop bs) hdl
+    intro j hj
+    have h := hblk (j + 1) (by omega)
+    have e1 : 8 * bs * (j + 1) = 8 * bs + 8 * bs * j := by rw [Nat.mul_succ, Nat.add_comm]
+    have e2 : bs * (j + 1) = bs + bs * j := by rw [Nat.mul_succ, Nat.add_comm]
+    rw [extractLsb'_extractLsb'_le (8 * bs * j) (8 * bs) (8 * bs) (8 * (n * bs)) X (by
+      have : 8 * bs * j + 8 * bs = 8 * bs * (j + 1) := (Nat.mul_succ _ _).symm
+      have : 8 * bs * (j + 1) ≤ 8 * bs * n := Nat.mul_le_mul_left _ (by omega)
+      have : 8 * bs * n = 8 * (n * bs) := by rw [Nat.mul_assoc, Nat.mul_comm bs n]
+      omega), List.drop_drop, ← e1]
+    rw [e2] at h
+    exact h
+
+def vec256EncBytes (ks : KeySched 64) (chunk : Bytes) : Bytes := bytesOf 128 (vecEnc8 (schedUp ks) (image 1024 chunk))
+def vec256DecBytes (ks : KeySched 64) (chunk : Bytes) : Bytes := bytesOf 128 (vecDec8 (schedDown ks) (image 1024 chunk))
+def vec64EncBytes (ks : KeySched 32) (chunk : Bytes) : Bytes := bytesOf 64 (vecEnc8h (schedUp64 ks) (image 512 chunk))
+def vec64DecBytes (ks : KeySched 32) (chunk : Bytes) : Bytes := bytesOf 64 (vecDec8h (schedDown64 ks) (image 512 chunk))
+
+theorem vec256_batch_is_ecb (ks : KeySched 64) (chunk : Bytes) (hc : chunk.length = 8 * 16) :
+    vec256EncBytes ks chunk = ecb (ecbEncrypt (ops128 .c32le) p128 ks) 16 chunk ∧
+    vec256DecBytes ks chunk = ecb (ecbDecrypt (ops128 .c32le) p128 ks) 16 chunk := by
+  have hb : ∀ j, j < 8 → image 128 ((chunk.drop (16 * j)).take 16) = (image 1024 chunk).extractLsb' (128 * j) 128 := by
+    intro j hj
+    have := image_block_gen 1024 16 chunk j (by omega)
+    simpa using this
+  constructor
+  · exact batch_is_ecb _ 16 (by decide) 8 _ chunk hc (fun j hj => by
+      have := (C07_vec256_block ks (image 1024 chunk) j hj _ (hb j hj)).1
+      simpa using this)
+  · exact batch_is_ecb _ 16 (by decide) 8 _ chunk hc (fun j hj => by
+      have := (C07_vec256_block ks (image 1024 chunk) j hj _ (hb j hj)).2
+      simpa using this)
+
+theorem vec64_batch_is_ecb (ks : KeySched 32) (chunk : Bytes) (hc : chunk.length = 8 * 8) :
+    vec64EncBytes ks chunk = ecb (ecbEncrypt (ops64 .c32le) p64 ks) 8 chunk ∧
+    vec64DecBytes ks chunk = ecb (ecbDecrypt (ops64 .c32le) p64 ks) 8 chunk := by
+  have hb : ∀ j, j < 8 → image 64 ((chunk.drop (8 * j)).take 8) = (image 512 chunk).extractLsb' (64 * j) 64 := by
+    intro j hj
+    have := image_block_gen 512 8 chunk j (by omega)
+    simpa using this
+  constructor
+  · exact batch_is_ecb _ 8 (by decide) 8 _ chunk hc (fun j hj => by
+      have := (C07_vec64_block ks (image 512 chunk) j hj _ (hb j hj)).1
+      simpa using this)
+  · exact batch_is_ecb _ 8 (by decide) 8 _ chunk hc (fun j hj => by
+      have := (C07_vec64_block ks (image 512 chunk) j hj _ (hb j hj)).2
+      simpa using this)
+
+/-- **parallel ECB through the 256-bit Skinny-128 and the 128-bit Skinny-64 vector back ends, every byte count** -/
+theorem C07_vec256_vec64_whole_buffer (ks : KeySched 64) (ks64 : KeySched 32) (input : Bytes) :
+    parallelBatched (vec256EncBytes ks) (8 * 16) (ecbEncrypt (ops128 .c32le) p128 ks) 16 (input.length + 1) input =
+      ecb (ecbEncrypt (ops128 .c32le) p128 ks) 16 input ∧
+    parallelBatched (vec256DecBytes ks) (8 * 16) (ecbDecrypt (ops128 .c32le) p128 ks) 16 (input.length + 1) input =
+      ecb (ecbDecrypt (ops128 .c32le) p128 ks) 16 input ∧
+    parallelBatched (vec64EncBytes ks64) (8 * 8) (ecbEncrypt (ops64 .c32le) p64 ks64) 8 (input.length + 1) input =
+      ecb (ecbEncrypt (ops64 .c32le) p64 ks64) 8 input ∧
+    parallelBatched (vec64DecBytes ks64) (8 * 8) (ecbDecrypt (ops64 .c32le) p64 ks64) 8 (input.length + 1) input =
+      ecb (ecbDecrypt (ops64 .c32le) p64 ks64) 8 input :=
+  ⟨parallelBatched_eq_ecb _ _ 16 8 (by decide) (by decide) (fun c hc => (vec256_batch_is_ecb ks c hc).1) _ input (by omega),
+   parallelBatched_eq_ecb _ _ 16 8 (by decide) (by decide) (fun c hc => (vec256_batch_is_ecb ks c hc).2) _ input (by omega),
+   parallelBatched_eq_ecb _ _ 8 8 (by decide) (by decide) (fun c hc => (vec64_batch_is_ecb ks64 c hc).1) _ input (by omega),
+   parallelBatched_eq_ecb _ _ 8 8 (by decide) (by decide) (fun c hc => (vec64_batch_is_ecb ks64 c hc).2) _ input (by omega)⟩
+
 end SkinnyVerif.Properties
